@@ -6,6 +6,6 @@ CONSTANTS
   MaxFaults = 0 MaxSoft = 0 MaxPins = 0 FullAt = 2 MaxFinal = 4 ChanCap = 2
   AskAll = TRUE TickAll = TRUE TickWhenRet = TRUE RequeueFront = TRUE RetryAfterRetire = TRUE WaitTrue = TRUE
 SPECIFICATION TSpec
-INVARIANTS ConservationT NothingLost AckCoversAll CloseCovers DrainAll RequeueKept TickHonest NoLag RetireRespectsPins
+INVARIANTS ConservationT NothingLost AckCoversAll CloseCovers DrainAll RequeueKept TickHonest NoLag RetireRespectsPins DoneMeansDone
 POSTCONDITION TraceAccepted
 CHECK_DEADLOCK FALSE
